@@ -26,3 +26,16 @@ Fixpoint drain (orc : oracle) (fuel : nat) (s : state) : state :=
   end.
 
 Definition statuses (s : state) : status * list status := (w_status s, map s_status (w_stages s)).
+
+(* a parent with one before stage and one after stage (one task each), followed by a plain stage *)
+Definition ex_parent : stage :=
+  {| s_reqs := []; s_join := J_AND; s_threshold := 0; s_cof := false; s_fp := true; s_enabled := None;
+     s_mutex := None; s_choice := None; s_max_jumps := None; s_split_or := false; s_conds := []; s_status := NOT_STARTED; s_started := false;
+     s_ended := false; s_version := 0; s_fired := false; s_branches := []; s_bypass := false; s_jump_count := 0;
+     s_buffered := []; s_signal := None; s_has_exc := false; s_plan_pending := false; s_hydrated := [];
+     s_ctx := []; s_outs := []; s_tasks := [mk_task false];
+     s_syn := {| y_parent := None; y_owner := None; y_script := 0; y_ntasks := 0;
+                 y_before := [{| tp_script := 1000; tp_ntasks := 1; tp_chain := false |}];
+                 y_after := [{| tp_script := 1001; tp_ntasks := 1; tp_chain := false |}]; y_fail := [] |};
+     s_onfail := false |}.
+Definition ex_syn : state := init_state [ex_parent; ex_stage [0] 1] None.
